@@ -1648,30 +1648,50 @@ func (pr *Prover) assumeContracts() {
 
 // isFillFamily: a function or closure whose non-receiver parameters are
 // ([]byte, int) or ([]byte, int, <byte-sized named>) and whose result is int.
-func isFillFamily(fn *ssa.Function) bool {
+func isFillFamily(fn *ssa.Function) bool { return fillBufIndex(fn) >= 0 }
+
+// fillBufIndex: the position, among the non-receiver parameters, of the buffer parameter of a fill-family
+// function: parameters ([]byte, int) or ([]byte, int, <byte-sized>) and result int.  Methods and closures have
+// the buffer first; a plain helper function may take the values to emit before it
+// (func fillX(v T, b []byte, i int) int).  -1 if fn is not of the family.
+func fillBufIndex(fn *ssa.Function) int {
 	sig := fn.Signature
 	if sig.Results().Len() != 1 {
-		return false
+		return -1
 	}
 	if b, ok := sig.Results().At(0).Type().Underlying().(*types.Basic); !ok || b.Kind() != types.Int {
-		return false
+		return -1
 	}
 	ps := sig.Params()
-	if ps.Len() != 2 && ps.Len() != 3 {
-		return false
-	}
-	if !isByteSlice(ps.At(0).Type()) {
-		return false
-	}
-	if b, ok := ps.At(1).Type().Underlying().(*types.Basic); !ok || b.Kind() != types.Int {
-		return false
-	}
-	if ps.Len() == 3 {
-		if b, ok := ps.At(2).Type().Underlying().(*types.Basic); !ok || b.Kind() != types.Uint8 {
+	shape := func(k int) bool {
+		rest := ps.Len() - k
+		if rest != 2 && rest != 3 {
 			return false
 		}
+		if !isByteSlice(ps.At(k).Type()) {
+			return false
+		}
+		if b, ok := ps.At(k + 1).Type().Underlying().(*types.Basic); !ok || b.Kind() != types.Int {
+			return false
+		}
+		if rest == 3 {
+			if b, ok := ps.At(k + 2).Type().Underlying().(*types.Basic); !ok || b.Kind() != types.Uint8 {
+				return false
+			}
+		}
+		return true
 	}
-	return true
+	if shape(0) {
+		return 0
+	}
+	if sig.Recv() == nil && fn.Parent() == nil {
+		for k := 1; k < ps.Len()-1; k++ {
+			if shape(k) {
+				return k
+			}
+		}
+	}
+	return -1
 }
 
 // inlineCond: facts from a call of a tiny pure boolean helper, e.g.
